@@ -11,10 +11,9 @@ use vharness::tok::{reset_counters, Tok, FT};
 fn c14(lens: &[usize]) {
     let mut rng = Rng::new(14, 1);
     for &n in lens {
-        for kind in 0..3 {
+        for kind in 0..2 {
             let prio: Vec<i64> = match kind {
-                0 => (0..n as i64 - 1).collect(),
-                1 => (0..n as i64 - 1).rev().collect(),
+                0 => (0..n as i64 - 1).rev().collect(),
                 _ => (0..n - 1).map(|_| rng.below(7) as i64).collect(),
             };
             let table: Table = (0..n - 1).map(|k| OpSpec::bin(intern(&format!("o{k}q")), (k % 64) as u8, prio[k], false)).collect();
@@ -100,7 +99,7 @@ fn main() {
         if big {
             c14(&[2, 17, 31, 32, 33, 34, 63, 64, 65, 66, 127, 128, 129, 130])
         } else {
-            c14(&[3, 33, 65, 66])
+            c14(&[3, 33, 65])
         }
     }
     if mode == "c15" || mode == "all" {
